@@ -63,7 +63,7 @@ func (m *Sender) park(ctx context.Context, p peer.ID, req *pb.Message, want bool
 	r.N = len(m.Log)
 	m.Log = append(m.Log, r)
 	m.mu.Unlock()
-	label := fmt.Sprintf("%s%s:%s:%s", m.Label, req.GetType(), m.U.Name(p), keyTag(req.GetKey()))
+	label := fmt.Sprintf("%s%s:%s:%s%s", m.Label, req.GetType(), m.U.Name(p), keyTag(req.GetKey()), sim.TagOf(ctx))
 	out, cerr := m.S.Park("rpc", label, ctx, r)
 	m.mu.Lock()
 	defer m.mu.Unlock()
